@@ -50,7 +50,7 @@ pub fn prop() -> Prop {
 }
 
 pub fn generate(seed: u64, run: u64, tier: Tier) -> Scenario {
-    let suite = suite_for_run(run, 10);
+    let suite = suite_for_run(run, 6);
     dispatch!(suite, gen_c(seed, run, tier))
 }
 
